@@ -139,6 +139,7 @@ inductive OPc where
   | addS (aid t maxfee maxdelay : Nat)   -- add_payment_attempt: state write (Pending) outstanding
   | addA (aid g maxfee maxdelay : Nat)   -- add_payment_attempt: attempt record write outstanding
   | paying (aid g : Nat) (p : PPc)       -- inside the pay wrapper
+  | panicked                             -- the task hit `todo!()`: the entry stays, nobody owns it
 deriving Repr, DecidableEq
 
 structure Owner where
@@ -172,6 +173,7 @@ def OPc.outstanding (v : SVariant) : OPc → List SReq
   | .addS aid t _ _ => [.dsWriteState (.pending aid t) .createOrReplace]
   | .addA aid _ _ _ => [.dsWriteAttempt aid .mustCreate]
   | .paying _ _ p => p.outstanding.map .prov
+  | .panicked => []
 
 def BPc.request (v : SVariant) : BPc → SReq
   | .succS _ pre => .dsWriteState (.succeeded pre) .createOrReplace
@@ -372,7 +374,7 @@ def applyONext (v : SVariant) (s : SState) (e : PEntry) (o : Owner) (q : SReq) :
   | .finishBk r b =>
     ({ s with active := none, bks := s.bks ++ [{ id := s.nextBk, pc := b, served := none }], nextBk := s.nextBk + 1 },
      respAll e r)
-  | .panic => ({ s with active := some (e, { pc := o.pc, served := [] }), panicked := true }, [])
+  | .panic => ({ s with active := some (e, { pc := .panicked, served := [] }), panicked := true }, [])
 
 def bkCont : BPc → SReply → Option BPc
   | .succS aid _, .written _ => some (.succA aid)
